@@ -715,6 +715,32 @@ func (s *Sel) checkSendAfterClose(c *Ctx, ls *Locksets) {
 				}
 				key := fmt.Sprintf("%s:send@%s", id, sender)
 				okPair := common && flagOK
+				// an unlisted send in an unexported helper that is only called, directly, from functions listed for
+				// the same channel is the listed finding after an "extract function" edit
+				if !okPair && !c.IsKnown(rule, key) && top == sd.f && top.Object() != nil && !top.Object().Exported() {
+					var callers []string
+					exact := true
+					for _, cr := range p.Callers(top) {
+						if _, isCall := cr.Instr.(*ssa.Call); !isCall {
+							exact = false
+						}
+						ct := cr.Caller
+						for ct.Parent() != nil {
+							ct = ct.Parent()
+						}
+						callers = append(callers, fmt.Sprintf("%s:send@%s", id, p.FuncKey(ct)))
+					}
+					all := exact && len(callers) > 0
+					for _, ck := range callers {
+						if !c.IsKnown(rule, ck) {
+							all = false
+						}
+					}
+					if all {
+						sort.Strings(callers)
+						key = callers[0]
+					}
+				}
 				if prev, dup := seenPair[key]; dup && (!prev || okPair) {
 					continue // keep the worst verdict per key
 				}
